@@ -254,6 +254,11 @@ class SamplerCore:
 
         # Add sampler metadata
         d["random_state"] = self.config.random_state
+        # A seeded run also records where its random stream stands, so that a
+        # resumed run continues the stream instead of starting it again
+        d["rng_state"] = (
+            np.random.get_state() if self.config.random_state is not None else None
+        )
         d["n_total"] = getattr(self, "n_total", None)
         d["logz_err"] = getattr(self, "logz_err", None)
 
@@ -315,8 +320,14 @@ class SamplerCore:
         if "logz_err" in d:
             self.logz_err = d["logz_err"]
 
-        # Set random seed
-        if "random_state" in d and d["random_state"] is not None:
+        # Continue the random stream of the seeded run that wrote the checkpoint.
+        # Seeding with random_state again would replay the innovations of that
+        # run's first iterations (a resumed warm-up would redraw its first prior
+        # batch bit for bit); it remains the fallback for checkpoints written
+        # before the generator state was recorded.
+        if d.get("rng_state") is not None:
+            np.random.set_state(d["rng_state"])
+        elif "random_state" in d and d["random_state"] is not None:
             np.random.seed(d["random_state"])
 
     def _log_like(self, x):
